@@ -27,6 +27,8 @@ static uint32_t rnd(void)
 }
 static void rnd_fill(uint8_t *p, unsigned n) { while (n--) *p++ = (uint8_t)rnd(); }
 static long cases = 0;
+extern int skinny_verif_backend_cap;   /* guarded hook in src/skinny-internal.c */
+static int replay_backend = -1;
 
 static void hex(const char *name, const uint8_t *p, unsigned n)
 {
@@ -34,7 +36,11 @@ static void hex(const char *name, const uint8_t *p, unsigned n)
     printf(" %s=", name);
     for (i = 0; i < n; ++i) printf("%02x", p[i]);
 }
-static void fail_exit(void) { printf("\n"); fflush(stdout); exit(1); }
+static void fail_exit(void)
+{
+    printf(" [back end cap %d: %s]\n", replay_backend, replay_backend < 0 ? "widest the host offers" : replay_backend == 1 ? "128-bit SIMD" : "generic");
+    fflush(stdout); exit(1);
+}
 
 /* structured byte patterns: kind 0 random, 1 zero, 2 0xff, 3 random with zero 4-byte words chosen by mask */
 static void pattern(uint8_t *p, unsigned n, unsigned kind, unsigned mask)
@@ -48,11 +54,14 @@ static void pattern(uint8_t *p, unsigned n, unsigned kind, unsigned mask)
 }
 
 /* ---------------- SKINNY-128 ---------------- */
-static void one_skinny128(const uint8_t *key, unsigned len, const uint8_t *blk)
+static void one_skinny128(const uint8_t *key0, unsigned len, const uint8_t *blk)
 {
     Skinny128Key_t ks;
     uint8_t o[16], r[16], d[16];
     int rc;
+    /* the key lives in a heap block of EXACTLY len bytes: ASan flags any read beyond the announced extent */
+    uint8_t *key = (uint8_t *)malloc(len);
+    memcpy(key, key0, len);
     memset(&ks, 0xA5, sizeof(ks));
     rc = skinny128_set_key(&ks, key, len);
     ++cases;
@@ -69,6 +78,7 @@ static void one_skinny128(const uint8_t *key, unsigned len, const uint8_t *blk)
         printf("REPLAY-FAIL: skinny128 decrypt != spec inverse: len=%u", len);
         hex("key", key, len); hex("block", blk, 16); hex("got", d, 16); hex("want", r, 16); fail_exit();
     }
+    free(key);
 }
 
 static void one_round128(void)
@@ -203,7 +213,20 @@ int main(int argc, char **argv)
     else if (!strcmp(fam, "skinny128_keylen")) fam_skinny128(1);
     else if (!strcmp(fam, "skinny64")) fam_skinny64(0);
     else if (!strcmp(fam, "skinny64_keylen")) fam_skinny64(1);
-    else if (!more_families(fam)) { printf("REPLAY-ERROR: unknown family %s\n", fam); return 2; }
+    else {
+        /* families that go through objects with a back end are run once per back end the host offers, pinned
+           through the guarded hook skinny_verif_backend_cap (library built with -DSKINNY_C_VERIF) */
+        static const int caps[3] = {-1, 1, 0};
+        int k, known = 1;
+        int per_backend = !strncmp(fam, "ctr", 3) || !strncmp(fam, "par", 3) || !strcmp(fam, "erase") || strstr(fam, "_life") != 0;
+        for (k = 0; k < (per_backend ? 3 : 1) && known; ++k) {
+            skinny_verif_backend_cap = caps[k];
+            replay_backend = caps[k];
+            known = more_families(fam);
+        }
+        skinny_verif_backend_cap = -1;
+        if (!known) { printf("REPLAY-ERROR: unknown family %s\n", fam); return 2; }
+    }
     printf("REPLAY-PASS: %ld cases, family %s\n", cases, fam);
     return 0;
 }
